@@ -11,7 +11,11 @@ IEEE-754 bit pattern; integers in decimal.
         0: c·x_p³    1: c·max(x_p − x_q − g, 0)    2: c·w·|w|, w = (x_p − xprev_p)/h    3: c·x_p·j + g
       → `ok d(nt columns of n) v a` | `index-error`
 `cdf n nt order F G A B Fp Gp Ap Bp (n each) bo(n·n) alpha(n·n) P(nt columns of n) d0 v0`
-      → `ok d(nt columns of n) v`
+      → `ok d(nt columns of n) v`   (`alpha` given by the caller)
+`cdfa n nt order F G A B Fp Gp Ap Bp (n each) bo(n·n) P(nt columns of n) d0 v0`
+      the same with `alpha = alphaMat Bp bo gaussSolve` computed by the model
+      → `ok alpha(n·n, row-major) d(nt columns of n) v`
+`rfm n nt Krf(n·n) F(nt columns of n)` → `ok d(nt columns of n)`   (`rfStaticMat` with Gaussian elimination)
 anything else → `bad-op`. -/
 open PyYetiVerif PyYetiVerif.Newmark
 
@@ -134,6 +138,26 @@ def opCdf : P String := do
   let r := Cdf.cdfRun C (order == 1) d0 v0 Pf.toList
   pure s!"ok {fmtVecs (r.map (·.1))} {fmtVecs (r.map (·.2.1))}"
 
+def opCdfa : P String := do
+  let n ← nat; let nt ← nat; let order ← nat
+  let cs ← many 8 (vec n)
+  let bo ← mat n
+  let Pf ← many nt (vec n)
+  let d0 ← vec n; let v0 ← vec n
+  let al := Cdf.alphaMat (cs[7]!).a bo gaussSolve
+  let C : Cdf.Ops (Vec Float) :=
+    { F := diagOp cs[0]!, G := diagOp cs[1]!, A := diagOp cs[2]!, B := diagOp cs[3]!,
+      Fp := diagOp cs[4]!, Gp := diagOp cs[5]!, Ap := diagOp cs[6]!, Bp := diagOp cs[7]!,
+      bo := matVec bo, alpha := matVec al }
+  let r := Cdf.cdfRun C (order == 1) d0 v0 Pf.toList
+  pure s!"ok {fmtVecs (al.toList.map fun row => ⟨row⟩)} {fmtVecs (r.map (·.1))} {fmtVecs (r.map (·.2.1))}"
+
+def opRfm : P String := do
+  let n ← nat; let nt ← nat
+  let K ← mat n
+  let F ← many nt (vec n)
+  pure s!"ok {fmtVecs (rfStaticMat K gaussSolve F.toList)}"
+
 def answer (line : String) : String :=
   let ws := (line.splitOn " ").filter (· ≠ "")
   let go (p : P String) (rest : List String) : String :=
@@ -144,6 +168,8 @@ def answer (line : String) : String :=
   | "sc" :: rest => go opSc rest
   | "mx" :: rest => go opMx rest
   | "cdf" :: rest => go opCdf rest
+  | "cdfa" :: rest => go opCdfa rest
+  | "rfm" :: rest => go opRfm rest
   | _ => "bad-op"
 
 partial def loop (h : IO.FS.Stream) (out : IO.FS.Stream) : IO Unit := do
